@@ -1,5 +1,6 @@
 import Oracle.Sexp
 import Oracle.Slice
+import Oracle.Lib
 open Oracle
 
 /-- a line is `(<stream> payload...)`; the answer is one S-expression -/
@@ -9,6 +10,10 @@ def handle (line : String) : String :=
     match stream with
     | "echo" => toString (Sx.list payload)
     | "slice.hist" => toString (Oracle.Slice.handle payload)
+    | "lib.dict" => toString (Oracle.Lib.dictStream payload)
+    | "lib.str" => toString (Oracle.Lib.strCall payload)
+    | "lib.buf" => toString (Oracle.Lib.bufStream payload)
+    | "lib.tos" => toString (Oracle.Lib.tosCall payload)
     | _ => "bad-stream"
   | _ => "bad-line"
 
